@@ -358,8 +358,12 @@ def inventory(ctx):
             ctx.extra.setdefault("module_level_constant_objects", []).extend(f"{m}.{x}" for x in consts)
         ok = not new_state and not globals_used
         state = (state & exp) | new_state
-        ctx.record(fam, PROVED if ok else REFUTED, {"module": m, "module_level_mutable_bindings": sorted(state)})
-        if not ok:
+        strict = os.environ.get("HV_PURITY_POLICY", "undecided") == "violation"
+        ctx.record(fam, PROVED if ok else (REFUTED if strict else UNKNOWN), {"module": m, "module_level_mutable_bindings": sorted(state)})
+        if not ok and not strict:
+            ctx.undecide(fam, f"module {m}: module-level mutable state {sorted(state)} (expected {sorted(exp)}), global statements: {len(globals_used)} - the static "
+                              "inventory argument is withdrawn (a correct memoisation breaks no property); the ownership / history clauses decide")
+        elif not ok:
             ctx.violate(fam, f"state:{m}:{sorted(state)}", f"module {m}: module-level mutable state {sorted(state)} (expected {sorted(exp)}), global statements: {len(globals_used)}",
                         {"module": m, "state": sorted(state)}, has_input=False)
         # writes to caches
